@@ -1492,7 +1492,7 @@ theorem start_refused_iff (cfg : Cfg) :
         · exact ⟨c, hc, by simpa [CR.init] using hg, hv⟩
 
 theorem start_frame (o : Ord) (cfg : Cfg) :
-    (start o cfg).1.used = [] ∧ (start o cfg).1.deliveries = [] ∧ (start o cfg).1.metaQ = false := by
+    (start o cfg).1.used = [] ∧ (start o cfg).1.deliveries = [] ∧ (start o cfg).1.metaQ = cfg.q0 := by
   simp only [start]; split <;> simp
 
 theorem start_dinv (cfg : Cfg) (hw : cfg.WF) (hok : (start idOrd cfg).2 = false) :
